@@ -119,6 +119,9 @@ def main(tier, replay=None):
     srcs = [F.errlit(c) for c in LIT[:4]] + [F.binop('/', F.num('1'), F.num('0')), F.call('NA'), F.call('ERRVA'), F.call('ERRRD'),
                                              F.call('SUM', F.call('ERRVN'))]
     srcs += [F.call('ERRV' + t) for t in 'ERMLG'] + [F.call('ERRR' + t) for t in 'EG']
+    # errors that operators produce themselves: arrays of different lengths, text that is no number, a date before 1900
+    srcs += [F.binop('+', F.arr(F.num('1'), F.num('2')), F.arr(F.num('1'), F.num('2'), F.num('3'))), F.binop('*', F.string('qq#'), F.num('2')),
+             F.binop('/', F.arr(F.num('1')), F.num('0'))]
     plains = [F.string(''), F.var('NULL'), F.string('#N/A'), F.string('#DIV/0!'), F.num('0'), F.var('FALSE'), F.string('qq'),
               F.arr(F.num('1'), F.num('2')), F.arr(F.string('a'))]
     for e in srcs:
